@@ -231,6 +231,31 @@ def _modulus(m, res):
     res.outcome((m, n))
     if v.value != 1 or n != (1 << m) - 1:
         res.viol("gf", cfg, "primitive-order", f"order walk of primitive_element()={al.value} ends at step {n} with value {v.value}; expected order {(1 << m) - 1}")
+    # GF(2^m) asked for twice is one field: elements obtained through two separate FiniteBifield(m) calls combine under every operation (closure)
+    # and compare as the values they are
+    F2 = _field(m)
+    R = Field(m, mod)
+    N = 1 << m
+    vals = sorted({x % N for x in (0, 1, 2, 3, 5, N - 1, N // 2, N // 3 + 1, 0x5A5A, 0x1234)})
+    try:
+        if not (F == F2) or (F != F2):
+            res.viol("gf", cfg, "field-laws", f"FiniteBifield({m}) == FiniteBifield({m}) is False")
+        for a in vals:
+            for b in vals:
+                A, B = F(a), F2(b)
+                res.ev(1, nontrivial=1, transitions=3)
+                got = ((A + B).value, (A * B).value, (A == B), (B * A).value)
+                want = (a ^ b, R.mul(a, b), a == b, R.mul(a, b))
+                if b:
+                    got += ((A * B.inverse()).value,)
+                    want += (R.mul(a, R.pow(b, N - 2)),)
+                if got != want:
+                    res.viol("gf", cfg, "field-laws", f"elements {a} and {b} from two FiniteBifield({m}) calls: (a+b, a*b, a==b, b*a, a*b^-1) = {got}, expected {want}", [a, b])
+                    raise StopIteration
+    except StopIteration:
+        pass
+    except Exception as e:  # noqa: BLE001
+        res.viol("gf", cfg, "field-laws", f"combining elements obtained through two FiniteBifield({m}) calls: {type(e).__name__}: {str(e)[:160]}")
     res.sample({"m": m, "modulus": bin(mod), "walk_steps": n})
 
 
